@@ -285,7 +285,7 @@ class Sem:
         """top-level process_event on a quiescent machine; returns result bits or None (not specified)"""
         if s.blocked(ev): return None
         if s.is_deferred(ev):
-            s.c.deferred.append((ev, pay)); return H_DEFERRED
+            s.c.deferred.append(DefEnt((ev, pay))); return H_DEFERRED
         res = s.run_one(ev, pay)
         s.drain()
         return res
@@ -304,23 +304,29 @@ class Sem:
             if n > 12: raise RuntimeError('queue does not drain')
             ev, pay = s.c.queue.pop(0)
             if s.blocked(ev): continue
-            if s.is_deferred(ev): s.c.deferred.append((ev, pay)); continue
+            if s.is_deferred(ev): s.c.deferred.append(DefEnt((ev, pay))); continue
             s.run_one(ev, pay)
 
     def release_deferred(s):
-        """deferred events whose type is no longer deferred are re-offered, in arrival order, before anything else"""
+        """deferred events that the active configuration no longer defers are re-offered in arrival order, each at most
+        once per top-level call (an event deferred again by a Defer action waits for the next handled event)"""
+        tried = []
         n = 0
         progress = True
         while progress:
             progress = False
-            for k, (ev, pay) in enumerate(s.c.deferred):
+            for k, ent in enumerate(s.c.deferred):
+                ev, pay = ent
+                if any(ent is t for t in tried): continue
                 if s.blocked(ev): break
                 if not s.is_deferred(ev):
                     del s.c.deferred[k]
                     n += 1
                     if n > 12: raise RuntimeError('deferred queue does not drain')
                     s.pay = pay
+                    before = len(s.c.deferred)
                     r = s.process_in_machine(s.prog.root, ev, True)
+                    for t in s.c.deferred[before:]: tried.append(t)     # deferred again in this cycle
                     s.run_completions()
                     progress = True
                     break
@@ -381,7 +387,7 @@ class Sem:
         for row in cands:
             if row.evt is None or not s.prog.evt_matches(row.evt, ev): continue
             for ev2, mode in getattr(row, 'gsend', ()): s.submit(ev2, s.pay)
-            if row.guard is not None and not s.ctx.guard(row.guard):
+            if row.guard is not None and not s.ctx.guard(row.guard, 'Q' if row.act == 'defer' else 'G'):
                 res |= H_REJECT; continue
             return s.take(m, r, row, ev)
         return res
@@ -389,7 +395,7 @@ class Sem:
     def take(s, m, r, row, ev):
         cm = s.c.m[m.name]
         if row.act == 'defer':
-            s.c.deferred.append((ev, s.pay)); return H_DEFERRED
+            s.c.deferred.append(DefEnt((ev, s.pay))); return H_DEFERRED
         if row.tgt is None:          # internal
             s.action(row); return H_TRUE
         pol = m.policy or 'after_entry'
@@ -439,6 +445,11 @@ def pay_plus1(pay):
     except ValueError: return '(int32_t)((uint32_t)(%s) + 1u)' % pay
 
 
+class DefEnt(tuple):
+    """a pending deferred event (kind, payload expression); a distinct object per occurrence"""
+    pass
+
+
 ANY = '*any*'     # log argument that is not specified by the property (not compared)
 
 
@@ -484,11 +495,14 @@ def bfs(prog, steps, max_depth=6, max_confs=200):
         for k in frontier:
             conf, script = seen[k]
             for st in steps:
-                for dec, log, res, post in explore(prog, conf, lambda sem, st=st: run_step(sem, st)):
+                # prefix events carry distinct concrete payloads (their position in the script), so that the order of
+                # pending events of one type is observable
+                st0 = (st[0], st[1], str(len(script) + 1)) if (st[0] in ('ev', 'enq') and len(st) == 2) else st
+                for dec, log, res, post in explore(prog, conf, lambda sem, st0=st0: run_step(sem, st0)):
                     edges += 1
                     pk = post.key()
                     if pk not in seen and len(seen) < max_confs and len(post.queue) + len(post.deferred) <= 3:
-                        seen[pk] = (post, script + [(st, dec)])
+                        seen[pk] = (post, script + [(st0, dec)])
                         order.append(pk); nxt.append(pk)
         frontier = nxt
         if not frontier: break
@@ -510,7 +524,7 @@ def run_step(sem, st):
         if sem.c.queue:
             ev, pay = sem.c.queue.pop(0)
             if not sem.blocked(ev):
-                if sem.is_deferred(ev): sem.c.deferred.append((ev, pay))
+                if sem.is_deferred(ev): sem.c.deferred.append(DefEnt((ev, pay)))
                 else: sem.run_one(ev, pay)
         return None
     raise ValueError(st)
